@@ -1202,6 +1202,32 @@ def register(an):
             except Exception:
                 if __import__('os').environ.get('LRS_DEBUG_FOLD'):
                     raise
+        if nm == 'find' and getattr(an, 'unroll_concrete', False) and len(args) == 2 and args[1][0] == 'closure':
+            # decision tables over concrete inputs: a search through a short, fully known sequence whose predicate is decided for
+            # every element is followed element by element (exact); anything undecided takes the abstract route below
+            s3 = st.copy()
+            try:
+                items = concrete_items(an, it, frame, s3, t)
+                found, decided = None, items is not None
+                for a in items or []:
+                    tmp = ('L', frame.id, 10**6 + int(an.nid().rsplit(':', 1)[1]), ())
+                    s3.env[(frame.id, tmp[2])] = a
+                    r = call_closure(an, args[1], [('ref', tmp)], frame, s3, t)
+                    if __import__('os').environ.get('LRS_DEBUG_FOLD'):
+                        print('FIND', str(a)[:80], '->', r)
+                    if r is not None and r[0] == 'bool' and r[1][0] == 'const':
+                        if r[1][1]:
+                            found = a
+                            break
+                    else:
+                        decided = False
+                        break
+                if decided:
+                    st.env, st.mem, st.lo, st.hi, st.sets, st.cons = s3.env, s3.mem, s3.lo, s3.hi, s3.sets, s3.cons
+                    return mk_some(found) if found is not None else mk_none()
+            except Exception:
+                if __import__('os').environ.get('LRS_DEBUG_FOLD'):
+                    raise
         # run the element pipeline once on an abstract item (twice, to let state-carrying closures reach a fixpoint-ish)
         s2 = st.copy()
         item = iter_item(an, it, frame, s2, t)
